@@ -509,7 +509,7 @@ package mcp
 //@ func httpServerHandler.handlePostRequest
 //@   requires status(w) == 0
 //@   before call (net/http.Header).Set#1 assert[C04 session-header-only-in-stateful-mode] !h.isStateless
-//@   modifies *, status(w), hval, handled, lastres, lasterr, cancels, gens, lastgen, lastgenw
+//@   modifies *, status(w), hval, handled, lastres, lasterr, cancels, gens, lastgen, lastgenw, errlogs
 //@   ensures[C03,C06] status(w) != 0
 //@ func httpServerHandler.handlePostNotification
 //@   requires status(w) == 0
@@ -1359,4 +1359,56 @@ package mcp
 //@   lockinv[C01 registered-response-channels-are-buffered] responsesMu: forall k string :: (k in self.responses) ==> chancap(self.responses[k]) >= 1
 //@ type responseManager
 //@   lockinv[C05 registered-response-channels-are-buffered] mutex: forall k string :: (k in self.pendingRequests) ==> chancap(self.pendingRequests[k]) >= 1
+//@
+// ---- third measurement round (ids -5): general facts behind the misses ----
+// C01 — the default request handler performs exactly one HTTP exchange per request it is given
+//@ func defaultHTTPReqHandler.Handle
+//@   ensures[C01 one-http-exchange-per-handled-request] httpdos == old(httpdos) + 1
+//@
+// C03 — a notification whose processing failed is answered with an HTTP error, never with a 2xx
+//@ ghost stable nhandles int
+//@ ghost stable lastnerr error
+//@ func mcpHandler.handleNotification
+//@   counted nhandles
+//@   records lastnerr ret0
+//@   modifies *, nhandles, lastnerr
+//@ func httpServerHandler.handlePostNotification
+//@   ensures[C03 a-failed-notification-is-answered-with-an-error-status] nhandles == old(nhandles) + 1 && !isnil(lastnerr) ==> status(w) >= 400
+//@
+// C05 — "reached" means written: a send that reports success has written one event to a stream
+//@ ghost stable ssewrites int
+//@ func sseResponder.sendNotification
+//@   counted ssewrites
+//@ func httpServerHandler.sendNotificationToGetSSE
+//@   ensures[C05 success-means-an-event-was-written-to-the-sessions-stream] result == nil ==> ssewrites == old(ssewrites) + 1
+//@ func httpServerHandler.sendNotification
+//@   ensures[C05 success-means-an-event-was-written-to-the-sessions-stream] result == nil ==> ssewrites == old(ssewrites) + 1
+//@
+// C08 — legacy SSE start: once the stream request has been answered, every failing path closes the transport
+//@ ghost stable readspawns int
+//@ func sseClientTransport.readSSE
+//@   counted readspawns
+//@ func sseClientTransport.start
+//@   ensures[C08 a-failed-start-releases-the-stream-it-opened] readspawns == old(readspawns) + 1 && result != nil ==> t.closed
+//@
+// C09 — only the frame writer writes to the stdio output stream
+//@ sweepscope[C09] kinds=passwriter files=stdio_server.go except=writeResponse
+//@
+// C15 — legacy SSE: every decodable request is handed to the asynchronous processor (and so to the chain)
+//@ ghost stable asyncreqs int
+//@ func SSEServer.processRequestAsync
+//@   counted asyncreqs
+//@ func SSEServer.handleRequestMessage
+//@   ensures[C15,C14 a-request-is-either-undecodable-and-logged-or-processed-through-the-chain] asyncreqs == old(asyncreqs) + 1 || errlogs == old(errlogs) + 1
+//@
+// C19 — the listening stream is started from the handshake context
+//@ func Client.Initialize
+//@   before call establishGetSSEConnection#0 assert[C19 listening-stream-started-from-the-handshake-context] arg1 == ctx
+//@
+// C20 — goroutines started by the library do not assign to variables they share with their creator
+//@ sweepscope[C20] kinds=goshare files=server.go,streamable_server.go,sse_server.go,stdio_server.go,handler.go,client.go,streamable_client.go,sse_client.go,transport_stdio.go,stdio_client.go,manager_tools.go,manager_prompt.go,manager_resource.go,manager_lifecycle.go
+//@
+// C17 — WithRetry clamps exactly the values the caller gave (no defaults substituted for zeros) and installs the result
+//@ func WithRetry$1
+//@   before call Validate#1 assert[C17 the-callers-values-are-what-gets-clamped] arg0.MaxRetries == config.MaxRetries && arg0.InitialBackoff == config.InitialBackoff && same(arg0.BackoffFactor, config.BackoffFactor) && arg0.MaxBackoff == config.MaxBackoff
 //@
